@@ -41,11 +41,15 @@ let rec parse_all toks = match toks with [] -> [] | _ -> let (x, r) = parse_one 
 let nat_of_string s = nat_of_int (int_of_string s)
 let name_of = function A n -> nat_of_string n | _ -> failwith "name"
 let loc_of = function A "g" -> Global | A n -> Local (nat_of_string n) | _ -> failwith "loc"
-let lit_of = function
+(* (opq n) = the n-th uninterpreted constant of the program (string, char, flonum, bignum, vector, quoted pair);
+   (node l) = a SEXP_LIT node of the AST holding l *)
+let rec lit_of = function
   | L [A "int"; A z] -> LInt (z_of_int (int_of_string z))
   | L [A "bool"; A b] -> LBool (b = "1")
   | L [A "nil"] -> LNil | L [A "void"] -> LVoid | L [A "undef"] -> LUndef
   | L [A "sym"; A n] -> LSym (nat_of_string n)
+  | L [A "opq"; A n] -> LOpaque (nat_of_string n)
+  | L [A "node"; l] -> LNode (lit_of l)
   | _ -> failwith "unsupported literal"
 let prim_of = function
   | "+" -> PAdd | "-" -> PSub | "*" -> PMul | "<" -> PLt | "<=" -> PLe | ">" -> PGt | ">=" -> PGe
@@ -69,9 +73,10 @@ let rec ast_of (x : sx) : ast =
 
 let si n = string_of_int (int_of_nat n)
 let sz z = string_of_int (int_of_z z)
-let pr_lit = function
+let rec pr_lit = function
   | LInt z -> "(int " ^ sz z ^ ")" | LBool b -> if b then "(bool 1)" else "(bool 0)"
   | LNil -> "(nil)" | LVoid -> "(void)" | LUndef -> "(undef)" | LSym n -> "(sym " ^ si n ^ ")"
+  | LOpaque n -> "(opq " ^ si n ^ ")" | LNode l -> "(node " ^ pr_lit l ^ ")"
 let pr_loc = function Global -> "g" | Local n -> si n
 let pr_prim = function
   | PAdd -> "+" | PSub -> "-" | PMul -> "*" | PLt -> "<" | PLe -> "<=" | PGt -> ">" | PGe -> ">="
@@ -120,6 +125,7 @@ let rec pr_value (h : hobj list) (d : int) (v : value) : string =
   match v with
   | VLit (LInt z) -> sz z | VLit (LBool b) -> if b then "#t" else "#f"
   | VLit LNil -> "()" | VLit LVoid -> "#<void>" | VLit LUndef -> "#<undef>" | VLit (LSym n) -> "sym:" ^ si n
+  | VLit (LOpaque n) -> "opq:" ^ si n ^ ";" | VLit (LNode _) -> "#<literal-node>"
   | VPair a -> "(" ^ pr_vtail h d v ^ ")"
   | VVec _ -> "#<vector>" | VProc _ -> "#<procedure>" | VCell _ -> "#<cell>"
 and pr_vtail h d v =
@@ -136,6 +142,7 @@ let rec pr_sval (v : sval) : string =
   match v with
   | SLit (LInt z) -> sz z | SLit (LBool b) -> if b then "#t" else "#f"
   | SLit LNil -> "()" | SLit LVoid -> "#<void>" | SLit LUndef -> "#<undef>" | SLit (LSym n) -> "sym:" ^ si n
+  | SLit (LOpaque n) -> "opq:" ^ si n ^ ";" | SLit (LNode _) -> "#<literal-node>"
   | SPair _ -> "(" ^ pr_stail v ^ ")"
   | SClo _ -> "#<procedure>"
 and pr_stail v =
